@@ -159,8 +159,12 @@ def malformed_heads(rng, n):
            b"//1.2.3/", b"//1.2.3.4.5/", b"//.a/", b"//a./", b"//~", b"//a~b/", b"//a:/", b"//:80/", b"//a:65536/", b"//a:0080/p",
            b"//u@h/", b"//@/", b"//h/%", b"//h/a%2Fb", b"/:", b"x:/y", b"a:b", b"1:b", b"/a:b", b"//h?q", b"//h#f", b"//[::1]/", b"//[v1.x]/",
            b"//xn--/", b"//a.b-/c", b"//a--b/", b"//0x7f.1/"]
-    for t in odd:
+    for j, t in enumerate(odd):
         outs.append(b"GET " + t + b" HTTP/1.1")
+        outs.append(METHODS[j % len(METHODS)][0] + b" " + t + b" HTTP/1.0")
+    for m, _ in METHODS:                      # every method with a target that only QUrl refuses
+        for t in (b"//../secret.txt", b"//-/x", b"//a:b/", b"//["):
+            outs.append(m + b" " + t + b" HTTP/1.1")
     for _ in range(max(0, n // 8)):
         host = rng.bytes(rng.range(0, 6), b"ab.-_~:@0189Z")
         outs.append(rng.choice(METHODS)[0] + b" //" + host + rng.choice([b"", b"/", b"/p", b"/p?q=1"]) + b" HTTP/1.1")
